@@ -20,7 +20,9 @@ RULE = ('resource trees built by the C11 generator (composite keys, '
         'node must raise, and the whole comparison is repeated; last, the '
         'same attempts through vars(snapshot) where a level has an instance '
         'dictionary. Non-trivial '
-        '= >=1 non-identifier name and depth>=2.')
+        '= >=1 non-identifier name and depth>=2.'
+        ' Rounds 9-13 added: the tree changed through a sub-map between two'
+        ' snapshots; one sub-map mounted in two places.')
 ANCHORS = [
     'desper/model/tree.py::ResourceMap.get_static_map',
     'desper/model/tree.py::StaticResourceMap.__getattribute__',
